@@ -35,6 +35,9 @@ func (p *Plan) refObj(e *Ent, n *plan.Node, cur int) string {
 		if def == nil {
 			continue
 		}
+		if pf.ID != cur && pf.Kind != FSingle && p.U.Unknown[e.Type+"/"+e.ID+"/"+strconv.Itoa(pf.Sub)] {
+			continue // the providing subgraph does not know the entity: nothing is merged here
+		}
 		if pf.ID != cur && pf.Kind != FSingle && p.U.ErrOn[e.Type+"/"+e.ID+"/"+strconv.Itoa(pf.Sub)] &&
 			len(pf.Sel.Fields) > 0 && pf.Sel.Fields[0].Def == def {
 			if def.Nullable {
